@@ -9,10 +9,18 @@ CONSTANTS
     Dims,        \* allowed NU / NV / NW, e.g. {1, 2, 4, 8}
     RotIdx,      \* indices into AngleTab
     StyleIdx,    \* indices into SizeStyles (base cell sizes)
-    Deviations   \* {} ; "DefaultOriginRaises" (as built) ; "OneStepPerAxis" (negative control)
+    Recount,     \* TRUE : second phase, one base dimension is changed after the default cells exist
+    Deviations   \* {} ; "DefaultOriginRaises" (as built before d160c9f) ; "OneStepPerAxis" (negative control) ;
+                 \* "CountSetterKeepsDefaultCells" (AS BUILT, octree.py u/v/w_count setters): the new dimension is
+                 \* stored, the default cells derived for the old dimensions stay
 
-VARIABLES inp, out
-vars == <<inp, out>>
+(* Second phase (Recount): the property speaks of "a default octree tiling the base grid exactly once".  The default *)
+(* cells are materialised when the object is created; u_count / v_count / w_count can be assigned afterwards.        *)
+(* Two outcomes keep the statement true - the assignment is refused (dimensions and cells unchanged) or the default   *)
+(* cells are derived again for the new dimensions; rc.ok lists both.  Keeping the old cells next to the new           *)
+(* dimensions (the named deviation) leaves an octree whose cells do not tile its base grid.                           *)
+VARIABLES inp, out, rc
+vars == <<inp, out, rc>>
 Dev(d) == d \in Deviations
 
 SizeStyles == << <<1, 1, 1>>, <<2, 1, 3>>, <<4, 5, 2>> >>      \* indices into SizeTab for (U, V, W)
@@ -48,10 +56,24 @@ Result(c) == LET cells == BaseRefine(c.nu, c.nv, c.nw) IN
              [err |-> IF Raises(c) THEN "IndexError" ELSE "none", cells |-> cells,
               cent |-> IF Raises(c) THEN <<>> ELSE Centres(c, cells)]
 NoOut == [err |-> "pending", cells |-> <<>>, cent |-> <<>>]
+NoRc == [done |-> FALSE, axis |-> "none", value |-> 0, dims |-> <<0, 0, 0>>, cells |-> <<>>, ok |-> {}]
 
-Init == inp \in [nu : Dims, nv : Dims, nw : Dims, hasO : BOOLEAN, rot : RotIdx, style : StyleIdx] /\ out = NoOut
-Compute == out.err = "pending" /\ out' = Result(inp) /\ UNCHANGED inp
-Next == Compute
+Init == inp \in [nu : Dims, nv : Dims, nw : Dims, hasO : BOOLEAN, rot : RotIdx, style : StyleIdx] /\ out = NoOut /\ rc = NoRc
+Compute == out.err = "pending" /\ out' = Result(inp) /\ UNCHANGED <<inp, rc>>
+
+DimsOf(c) == <<c.nu, c.nv, c.nw>>
+AxisNo == [u_count |-> 1, v_count |-> 2, w_count |-> 3]
+SetCount == Recount /\ out.err # "pending" /\ ~rc.done /\ UNCHANGED <<inp, out>> /\
+    \E ax \in {"u_count", "v_count", "w_count"}, k \in Dims :
+        LET old == DimsOf(inp)
+            new == [old EXCEPT ![AxisNo[ax]] = k]
+            rerefined == [dims |-> new, cells |-> BaseRefine(new[1], new[2], new[3])]
+            refused == [dims |-> old, cells |-> out.cells]
+            chosen == IF Dev("CountSetterKeepsDefaultCells") THEN [dims |-> new, cells |-> out.cells] ELSE rerefined
+        IN  /\ k # old[AxisNo[ax]]
+            /\ rc' = [done |-> TRUE, axis |-> ax, value |-> k, dims |-> chosen.dims, cells |-> chosen.cells,
+                      ok |-> {rerefined, refused}]
+Next == Compute \/ SetCount
 Spec == Init /\ [][Next]_vars
 
 \* ---------------------------------------------------------------- properties
@@ -75,7 +97,22 @@ SingleCellAlongShortest ==
 \* as many centres as cells, whether or not an origin was given; centres pairwise distinct
 CountMatches == Done => out.err = "none" /\ Len(out.cent) = Len(out.cells)
 PairwiseDistinct == Done => \A a, b \in 1..Len(out.cent) : a # b => out.cent[a] # out.cent[b]
+\* after a change of a base dimension the cells still tile the (current) base grid exactly once
+TilesAfterRecount ==
+    rc.done => /\ \A x \in 0..(rc.dims[1] - 1), y \in 0..(rc.dims[2] - 1), z \in 0..(rc.dims[3] - 1) :
+                      Cardinality({r \in 1..Len(rc.cells) : Covers(rc.cells[r], x, y, z)}) = 1
+               /\ \A r \in 1..Len(rc.cells) : LET c == rc.cells[r] IN
+                      c[1] + c[4] <= rc.dims[1] /\ c[2] + c[4] <= rc.dims[2] /\ c[3] + c[4] <= rc.dims[3]
+\* both outcomes the harness accepts satisfy the statement
+AcceptedOutcomesTile ==
+    rc.done => \A o \in rc.ok :
+        \A x \in 0..(o.dims[1] - 1), y \in 0..(o.dims[2] - 1), z \in 0..(o.dims[3] - 1) :
+            Cardinality({r \in 1..Len(o.cells) : Covers(o.cells[r], x, y, z)}) = 1
 InputsUnchanged == [][inp' = inp]_vars
+ExportRecount == rc.done =>
+    PrintT(<<"CASE", ToJson([inp |-> inp, origin |-> OriginOf(inp), sizes |-> <<Sz(inp, 1), Sz(inp, 2), Sz(inp, 3)>>,
+                             cells |-> out.cells, axis |-> rc.axis, value |-> rc.value, ok |-> rc.ok,
+                             asbuilt |-> [dims |-> [DimsOf(inp) EXCEPT ![AxisNo[rc.axis]] = rc.value], cells |-> out.cells]])>>)
 
 ExportCase == Done => PrintT(<<"CASE", ToJson([inp |-> inp, out |-> out, origin |-> OriginOf(inp),
                                                rot |-> <<Cos(inp.rot), Sin(inp.rot)>>,
